@@ -689,10 +689,12 @@ class Walker:
         for it in range(0, maxit + 1):
             cur = self.expr(st.test, cur, frame)
             if it == maxit:
-                # abstractly leave after maxit iterations whatever the test says
+                # abstractly leave after maxit iterations -- unless the test is known to hold (then the path goes on looping)
                 if not const_true:
                     for s in cur:
-                        out.append(self.emit(s, Event("loopexit", st, frame, it=it, iters=it)))
+                        for s2, pol in self.branch(st.test, s, frame):
+                            if not pol:
+                                out.append(self.emit(s2, Event("loopexit", st, frame, it=it, iters=it)))
                 break
             t_states = []
             for s in cur:
